@@ -14,7 +14,7 @@ func init() {
 
 var c2ClientRates = []uint64{0, 0, 1, 2, 7, 1000, 1<<31 - 1}
 var c2StressRates = []uint64{0, 1, 2, 100, 1<<32 - 1, 1 << 32, 1<<32 + 5}
-var c2Classes = []string{"keep1", "drop", "det2", "det10", "det100", "det65536", "other"}
+var c2Classes = []string{"keep1", "drop", "bare", "bare", "det2", "det10", "det100", "det65536", "other"}
 
 func c2RandCfg(r *rand.Rand, mode string) c2Cfg {
 	c := c2Cfg{Reason: r.Intn(2) == 0, SpanCount: r.Intn(2) == 0, Counts: r.Intn(2) == 0, HostMeta: r.Intn(2) == 0}
@@ -22,7 +22,7 @@ func c2RandCfg(r *rand.Rand, mode string) c2Cfg {
 	case "c04":
 		c.Dry = r.Intn(10) == 0
 	case "c05":
-		c.Dry = true
+		c.Dry = r.Intn(10) < 7 // DryRun is reloadable: it is switched on and off by live reloads
 	default:
 		c.Dry = r.Intn(6) == 0
 	}
@@ -78,6 +78,10 @@ func c2Gen(r *rand.Rand, tier string, mode string) any {
 		stressBias = 22
 	}
 	reloadBias := 5
+	if mode == "c05" {
+		reloadBias = 12
+		in.Cfg.Dry = r.Intn(2) == 0 // half of the histories start with DryRun off
+	}
 	if mode == "c06" {
 		reloadBias = 16
 	}
